@@ -85,6 +85,12 @@ CLAIMS = {
             "RecipeTime::total never wraps (complete; defect D10 found and fixed); servings lists of three numbers are accepted "
             "exactly when distinct and in range, and returned in order (bounded). Other accessors (tags, author, locale, "
             "number-unit strings) not decided.", KANI + " (bounded stand-in, labelled bounded)"),
+    "C14": ("proof", "Partial: the `>>` mechanism only. Contracts on the real next_block (full parser) and next_metadata_block (metadata-only "
+            "scanner) plus two theorems over them, for one and the same remaining token stream: the first `>>` line (a `>>` at a line "
+            "start, up to the end of its line) is either the block the full parser takes next or lies wholly after what that call "
+            "consumed — never skipped as blank, never swallowed by a step or paragraph — and when it is that block both parsers hand "
+            "the same token slice, with the same input and extensions, to the same function metadata_entry. Not decided: the "
+            "iteration glue, the other direction of the old-style filter, YAML front matter, the analysis side.", VERUS),
     "C17": ("proof", "Partial. The local mechanisms: is_empty_token is exactly {whitespace, comments, newline}; ws_comments skips only "
             "such tokens; comments never enter text fragments (fragments are faithful slices outside comment tokens); a block "
             "comment ends at the first `-]`; the block splitter drops only blank tokens, trims trailing newlines, and a line "
@@ -96,7 +102,6 @@ CLAIMS = {
 NA_REASON = {
     "C01": "needs a functional specification of the whole language plus a printer that is not in the repository; the local facts it rests on are claimed under C04/C05/C02 (DESIGN.md §6)",
     "C09": "floating-point tolerance claims over HashMap/EnumMap/Arc data; Verus has no float theory, CBMC times out (DESIGN.md §6)",
-    "C14": "relational property over two Peekable-based scanners plus the analysis pass; out of reach (DESIGN.md §6)",
     "C15": "behaviour lives in serde derive output and serde_json; not contractable here (DESIGN.md §6)",
     "C16": "ConverterBuilder is HashMap/EnumMap/Arc/closure code; both tools fail on it (DESIGN.md §6)",
     "C18": "quantified over call histories and thread schedules; Kani has no threads, Verus would need its own permission types (DESIGN.md §6)",
